@@ -342,8 +342,18 @@ Record config := mkConfig {
   c_defaults : option defaults;        (* None = set_default_csrf_options never called *)
   c_exception_only : bool;
   c_storage : storage;
-  c_settings : list text               (* pyramid.csrf_trusted_origins: [] absent, [s] a str, else a list *)
+  c_settings : list text;              (* pyramid.csrf_trusted_origins: [] absent, [s] a str, else a list *)
+  c_defaults_first : bool              (* set_default_csrf_options is stated before add_view (flattened include order) *)
 }.
+
+(* The options utility is read when the view is DERIVED, i.e. when add_view's action runs.  Actions run
+   ordered by (order, statement position): the utility is there iff the directive's action sorts first. *)
+Definition defaults_visible (stated_first : bool) : bool :=
+  (sdc_order <? view_order)%Z || ((sdc_order =? view_order)%Z && stated_first).
+
+(* the same configuration with the two statements in the other order *)
+Definition with_defaults_first (c : config) (b : bool) : config :=
+  mkConfig (c_explicit c) (c_defaults c) (c_exception_only c) (c_storage c) (c_settings c) b.
 
 (* what csrf_view reads *)
 Record options := mkOptions {
@@ -353,11 +363,14 @@ Record options := mkOptions {
 
 Definition dflt {A} (o : option A) (d : A) : A := match o with Some a => a | None => d end.
 
+Definition builtin_options : options :=
+  mkOptions builtin_require (Some builtin_token) (Some builtin_header) builtin_safe
+            builtin_check_origin builtin_allow_no_origin (negb builtin_callback_none).
+
 Definition effective (c : config) : options :=
   match c_defaults c with
-  | None => mkOptions builtin_require (Some builtin_token) (Some builtin_header) builtin_safe
-                      builtin_check_origin builtin_allow_no_origin (negb builtin_callback_none)
-  | Some d => mkOptions (dflt (d_require d) sdc_require) (dflt (d_token d) (Some sdc_token))
+  | None => builtin_options
+  | Some d => if negb (defaults_visible (c_defaults_first c)) then builtin_options else mkOptions (dflt (d_require d) sdc_require) (dflt (d_token d) (Some sdc_token))
                         (dflt (d_header d) (Some sdc_header)) (dflt (d_safe d) sdc_safe)
                         (dflt (d_check_origin d) sdc_check_origin)
                         (dflt (d_allow_no_origin d) sdc_allow_no_origin) (d_callback d)
@@ -623,10 +636,10 @@ Definition get_storage (v : val) : option storage :=
 
 Definition get_config (v : val) : option config :=
   match v with
-  | VL [ex; df; eo; st; se] =>
+  | VL [ex; df; eo; st; se; fi] =>
       olet ex := get_opt get_bool ex in olet df := get_opt get_defaults df in olet eo := get_bool eo in
-      olet st := get_storage st in olet se := get_texts se in
-      Some (mkConfig ex df eo st se)
+      olet st := get_storage st in olet se := get_texts se in olet fi := get_bool fi in
+      Some (mkConfig ex df eo st se fi)
   | _ => None
   end.
 
@@ -691,7 +704,8 @@ Definition run_C12 (v : val) : val :=
         olet c := get_config cfg in olet caller := get_opt get_texts caller in
         olet rs := get_list_of get_request reqs in
         let pr := the_params (c_storage c) in
-        let o := effective c in
+        (* arguments of the two direct calls: the harness passes the declared / documented options *)
+        let o := spec_effective c in
         let '(hist, caller') := origin_history pr (c_settings c) caller (o_allow_no_origin o) rs in
         Some (VL [
           VL (map (fun rv => let '(r, ov) := rv in
